@@ -201,6 +201,9 @@ def check_radius(ctx):
     it = ctx.entry(CSR)
     ctx.floor('R4', 3)
     kind_errors(ctx, 'R4', it, under(CSR), strict=True)
+    from .geo import EUCLID_QUERY
+    for e in uniq_events(it, {'euclid_query'}, under(CSR)):
+        ctx.ob('R4', e['where'], e['node'], False, EUCLID_QUERY + ': the radius is not capped by the closest pair of sites when that pair straddles a cell face')
     dists = uniq_events(it, {'pbc_distance'}, under(CSR))
     if not dists and not any(o.rule.endswith('R4') and o.status == 'violated' for o in ctx.obs):
         ctx.ob('R4', fi, 'pair distances', None, 'pair distances do not come from a periodic distance call')
